@@ -31,6 +31,15 @@ TAdd     == IsEv("add") /\ AddTask(Ev.id)
 TDep     == IsEv("dep") /\ (IF Ev.order = <<>> THEN DependsOn(Ev.id, Ev.d) ELSE DependsOnSeq(Ev.id, Ev.order))
 TRetries == IsEv("retries") /\ SetRetries(Ev.id, Ev.n)
 TDefErr  == IsEv("deferr") /\ DefError
+TTmAdd   == IsEv("tmadd") /\ TmAdd(Ev.id)
+TTmGet   == IsEv("tmgetbad") /\ TmGetUnknown
+\* Graph.String(): the dot diagram lists the vertices and edges in declaration order
+TDot     == IsEv("dot") /\ Ev.tags = dot /\ DotComplete /\ UNCHANGED vars
+TValidate == IsEv("validate") /\ Ev.k = ValidateResult /\ UNCHANGED vars
+\* Run called again on a graph that already ran: nothing is launched, the same result comes back
+TRerun   == IsEv("rerun") /\ phase = "returned" /\ Ev.k = result
+              /\ (result = "errors" => ToSet(Ev.tags) = errs) /\ UNCHANGED vars
+TAllDoneAgain == IsEv("alldone") /\ phase = "returned" /\ result \in {"nil", "errors"} /\ UNCHANGED vars
 
 \* DepthFirstSort: an error exactly for cyclic graphs, otherwise every vertex once, dependencies first
 TSort ==
@@ -92,6 +101,7 @@ TraceInit == l = 1 /\ EmptyGraph /\ RunInit /\ limit = 1 /\ serial = FALSE /\ bu
 
 TraceNext ==
   /\ \/ TConfig \/ TAdd \/ TDep \/ TRetries \/ TDefErr \/ TSort \/ TRun
+     \/ TTmAdd \/ TTmGet \/ TDot \/ TValidate \/ TRerun \/ TAllDoneAgain
      \/ TLaunch \/ TRecv \/ TIdle \/ TObserved \/ TAllDone
      \/ TAcquiring \/ TLocking \/ TAcquired \/ TLocked \/ TEnter \/ TFrag \/ TExit \/ TWrite \/ TFlush \/ TSending \/ TUnlock \/ TRelease
      \/ TCancel \/ TEnvLock \/ TEnvUnlock \/ TReturned
